@@ -1,5 +1,5 @@
 #!/bin/bash
 # the repository's pinned test suite with the verif guard OFF (no -tags verif)
-cd /repo || exit 2
 . /verif/env.sh
+cd "$VERIF_REPO" || exit 2
 go test -mod=mod -vet=off -count=1 -timeout 25m ./...
